@@ -182,10 +182,11 @@ def compatible(c, f, depth=0):
         return cp >= 1 or fp >= 1 or cb == fb
     if cp >= 1 and fp >= 1:
         if fb == "void" or cb == "void":
-            return True      # type(C_PTR) / void* : generic object pointer
+            # type(C_PTR): gfortran -fc-prototypes prints void* whether the dummy has VALUE or not; the level of
+            # indirection of C_PTR dummies is checked separately from the interface text (cptr_levels)
+            return True
         if cp != fp:
-            # T** on the C side is declared type(C_PTR) (by reference or value) on the Fortran side
-            return fb == "void"
+            return False
         if cb.startswith("struct:") and fb.startswith("struct:"):
             return same_struct(strip_prefix(cb), strip_prefix(fb), depth)
         if cb == "struct:cfi_cdesc_t" or fb == "struct:cfi_cdesc_t":
@@ -202,7 +203,34 @@ def strip_prefix(s):
     return s.split(":", 1)[1]
 
 
-def compare(fproto_text, header_texts):
+def cptr_levels(module_text):
+    """{bind(C) name: [None | 1 | 2 per dummy]}: for type(C_PTR) dummies the number of C pointer levels the C
+    function receives: 1 with VALUE, 2 without (scalar or array by reference)."""
+    out = {}
+    text = re.sub(r"&\s*\n\s*&?", " ", module_text)
+    lines = text.split("\n")
+    i = 0
+    while i < len(lines):
+        m = re.search(r"(?:subroutine|function)\s+\w+\s*\(([^)]*)\).*bind\(C,\s*name=\"([^\"]+)\"\)", lines[i], re.I)
+        if m:
+            args = [a.strip().lower() for a in m.group(1).split(",") if a.strip()]
+            decl = {}
+            j = i + 1
+            while j < len(lines) and not re.match(r"\s*end\s+(subroutine|function)", lines[j], re.I):
+                dm = re.match(r"\s*(.*?)::\s*(.*)$", lines[j])
+                if dm:
+                    attrs = dm.group(1).lower()
+                    for nm in re.split(r",(?![^()]*\))", dm.group(2)):
+                        nm = re.sub(r"\(.*\)", "", nm).strip().lower()
+                        decl[nm] = attrs
+                j += 1
+            out[m.group(2)] = [((1 if re.search(r"\bvalue\b", decl.get(a, "")) else 2) if "type(c_ptr)" in decl.get(a, "") else None) for a in args]
+            i = j
+        i += 1
+    return out
+
+
+def compare(fproto_text, header_texts, module_text=None):
     """Returns (checked count, undecided count, mismatches list, unbound list)."""
     typedefs, structs = {}, set()
     for t in header_texts + [fproto_text]:
@@ -226,6 +254,7 @@ def compare(fproto_text, header_texts):
             if m.group(1).lower() in LAYOUTS:
                 LAYOUTS.setdefault(m.group(2).lower(), LAYOUTS[m.group(1).lower()])
     mism, unbound = [], []
+    levels = cptr_levels(module_text) if module_text else {}
     checked = undec = 0
     for name, (fret, fps, ftext) in fprotos.items():
         if name not in cprotos:
@@ -235,6 +264,16 @@ def compare(fproto_text, header_texts):
         checked += 1
         if len(cps) != len(fps):
             mism.append({"function": name, "what": "different number of arguments", "c": ctext, "fortran_as_c": ftext})
+            continue
+        lv = (levels.get(name) or []) if module_text else []
+        bad_level = None
+        for k, (a, b) in enumerate(zip(cps, fps)):
+            if k < len(lv) and lv[k] is not None and a is not None and not a[0].startswith("unknown") and a[0] != "funptr" and a[1] < lv[k]:
+                bad_level = "argument %d: C parameter has %d level(s) of indirection, the type(C_PTR) dummy (%s VALUE) is received with at least %d" % (
+                    k + 1, a[1], "with" if lv[k] == 1 else "without", lv[k])
+                break
+        if bad_level:
+            mism.append({"function": name, "what": bad_level, "c": ctext, "fortran_as_c": ftext})
             continue
         pairs = [("result", cret, fret)] + [("argument %d" % (i + 1), a, b) for i, (a, b) in enumerate(zip(cps, fps))]
         for (what, a, b) in pairs:
